@@ -1,0 +1,27 @@
+//go:build verif
+
+// Contracts for package split-car-fetcher, property C10 (comment-only; read by /verif/vcgo, build tag verif).
+// Abstractions (noframe) of the I/O-only constructors NewEpochFromConfig (package main) calls while assembling the CAR reader;
+// none of them touches an index or the Epoch under construction.
+package splitcarfetcher
+
+//@ func MetadataFromYaml
+//@   mode int
+//@   ensures result1 == nil ==> result0 != nil
+//@   noframe
+
+//@ func DealsFromCSV
+//@   mode int
+//@   ensures result1 == nil ==> result0 != nil
+//@   noframe
+
+//@ func NewSplitCarReader
+//@   mode int
+//@   ensures result1 == nil ==> result0 != nil
+//@   noframe
+
+// returns its freshly built *HTTPSingleFileRemoteReaderAt on success (HTTP HEAD request abstracted)
+//@ func NewRemoteHTTPFileAsIoReaderAt
+//@   mode int
+//@   ensures result2 == nil ==> result0 != nil
+//@   noframe
